@@ -1277,7 +1277,10 @@ f_sort_array (void)
     {
     case T_NUMBER:
       {
-        tmp = builtin_sort_array (copy_array (tmp), (int)arg[1].u.number);
+        /* keep the copy on the stack while sorting: the compare functions raise errors */
+        push_refed_array (copy_array (tmp));
+        tmp = builtin_sort_array (sp->u.arr, (int)arg[1].u.number);
+        sp--;
         break;
       }
 
@@ -1299,8 +1302,10 @@ f_sort_array (void)
         process_efun_callback (1, &ftc, F_SORT_ARRAY);
 
         tmp = copy_array (tmp);
+        push_refed_array (tmp); /* an error in the callback must release the copy */
         quickSort ((char *) tmp->item, tmp->size, sizeof (tmp->item),
                    sort_array_cmp);
+        sp--;
         sort_array_ftc = old_ptr;
         break;
       }
